@@ -380,10 +380,12 @@ def matrix_case(case):
                 raise Violation(f'trajectories of {k} models run by batch_run ({case["how"]}) under PYTHONHASHSEED='
                                 f'{case["hashseed"]} differ from the solo trajectories', expected=want, observed=digs)
     else:
-        for key, want in ref.items():
-            if got.get(key) != want:
-                raise Violation(f'trajectory of {key} differs under PYTHONHASHSEED={case["hashseed"]} / {case["how"]}',
-                                expected=want, observed=got.get(key))
+        bad = sorted(k for k, want in ref.items() if got.get(k) != want)
+        if bad:
+            # the message names the cell of the matrix only: WHICH models differ may itself vary from run to run when
+            # the code under test draws from an unseeded source, and a replay must reproduce the same message
+            raise Violation(f'same seed, different trajectory under PYTHONHASHSEED={case["hashseed"]} / {case["how"]}',
+                            expected={k: ref[k] for k in bad}, observed={k: got.get(k) for k in bad})
     return (case['hashseed'], case['how'])
 
 
